@@ -328,6 +328,8 @@ KNOWN_BAD = {
          "pub trait Needed {}\nimpl Needed for Vec<i64> {}\n#[derive(Debug, Clone, PartialEq)]\npub struct Needs<T>(pub Vec<T>) where Vec<T>: Needed;\n#[derive(Debug, Clone, PartialEq, Difference)]\npub struct D<T> where Vec<T>: Needed { pub a: Needs<T>, pub b: u8 }\n"),
  'D22': ("two exposed structs in one module whose struct name + recurse field name concatenate to the same text (A + bc, Ab + c): the type aliases of exposed structs are emitted at module level",
          "#[derive(Debug, Clone, PartialEq, Difference)]\npub struct Inner { pub x: i64 }\n#[derive(Debug, Clone, PartialEq, Difference)]\n#[difference(expose)]\npub struct A { #[difference(recurse)] pub bc: Inner, #[difference(recurse)] pub o: Option<Inner> }\n#[derive(Debug, Clone, PartialEq, Difference)]\n#[difference(expose)]\npub struct Ab { #[difference(recurse)] pub c: Inner }\n#[derive(Debug, Clone, PartialEq, Difference)]\n#[difference(expose)]\npub struct Ao { #[difference(recurse)] pub d: Inner }\n"),
+ 'D23': ("a field of an associated type (item: T::Item) whose Clone bound is stated in the where clause: the conversion from the borrowed to the owned diff clones the value, and its impl did not repeat where-clause items",
+         "pub trait Has { type Item; }\n#[derive(Debug, Clone, PartialEq)]\npub struct H;\nimpl Has for H { type Item = u8; }\n#[derive(Debug, Clone, PartialEq, Difference)]\npub struct D<T: Has + Clone + PartialEq + std::fmt::Debug> where T::Item: Clone + PartialEq + std::fmt::Debug { pub x: T, pub item: T::Item, pub n: u8 }\n"),
  'D7': ("trailing comma inside a difference attribute", "#[derive(Debug, Clone, PartialEq, Difference)]\npub struct D { #[difference(skip,)] pub f0: i64, pub f1: i64 }\n"),
  'D8': ("generic parameter used only behind a reference inside another type", "#[derive(Debug, Clone, PartialEq, Difference)]\npub struct D<'a, T> { pub o: Option<&'a T> }\n"),
  'D8b': ("generic parameter used only as the head of an associated-type path (same cause as D8: the used-parameter test compares the parameter's name with whole base strings)",
